@@ -196,6 +196,36 @@ func runC13(o *Out) {
 	// a reader must not be confused by io.Copy semantics: sanity of ReadAll on big entries is
 	// covered by finished-multiblock in the thorough tier
 	_ = io.EOF
+	// at the command line (cmd/gts/io.go): the root digest is the digest of the
+	// input that was read, whether it arrives on standard input or as a file, so
+	// an entry made for one input is never opened for another
+	if _, err := os.Stat(gtsBin); err == nil {
+		sb := newSandbox()
+		defer sb.close()
+		inA := []byte(">first\nAAAACCCC\n")
+		inB := []byte(">second\nGGGGTTTTAA\n")
+		type step struct {
+			args  []string
+			stdin []byte
+			want  string
+		}
+		steps := []step{
+			{[]string{"reverse"}, inA, "A"}, {[]string{"reverse"}, inB, "B"}, {[]string{"reverse"}, inA, "A"},
+			{[]string{"complement"}, inB, "cB"}, {[]string{"complement"}, inA, "cA"},
+		}
+		ref := map[string]runResult{
+			"A": sb.run([]string{"reverse"}, inA, false, true), "B": sb.run([]string{"reverse"}, inB, false, true),
+			"cA": sb.run([]string{"complement"}, inA, false, true), "cB": sb.run([]string{"complement"}, inB, false, true),
+		}
+		for i, st := range steps {
+			o.Dist["cli-entry-for-other-input"]++
+			got := sb.run(st.args, st.stdin, false, false)
+			if !sameResult(got, ref[st.want]) {
+				o.Violate("entry-opened-for-a-different-input", fmt.Sprintf("gts %v step %d", st.args, i),
+					fmt.Sprintf("got %q want %q", got.stdout, ref[st.want].stdout))
+			}
+		}
+	}
 }
 
 func minInt(a, b int) int {
